@@ -198,21 +198,21 @@ PROPS["C19"] = {
 TB_SCHED = ["the cooperative scheduler and the instrumented vatomic/vsync packages (vsched/, ~400 lines): goroutines are serialised, so the explored executions are the sequentially consistent interleavings of the instrumented operations (Go's sync/atomic is sequentially consistent)",
             "import-path substitution applied to a scratch copy of the working tree (found by scanning imports on every run)"]
 PROPS["C04"] = {
-    "components": [Sched("gauge", 3000, 100000, exhaustive_limit=3000, conformance="tr-gauge", only="C04:")],
+    "components": [Sched("gauge", 3000, 100000, exhaustive_limit=3000, conformance="tr-gauge", only="C04:", pb1=((40, 1500), (400, 40000)))],
     "rule": "gauge: 2-5 callers with outcomes success/failure/panic/failing fallback/panicking fallback race on one circuit with run and fallback limits in {-1,0,1,2,3}; every atomic operation and a marker inside the run/fallback functions is a scheduling point; "
             "random schedules plus DFS over all schedules of small 2-caller configurations; a run is distinct by (configuration, schedule) and every schedule of >= 2 callers is non-trivial",
     "trusted_base": TB_COMMON + TB_SCHED,
     "assumptions": ["limits are static during a run (live limit changes belong to C11)"],
 }
 PROPS["C14"] = {
-    "components": [Sched("rc", 3000, 200000, exhaustive_limit=3000, conformance="tr-rc")],
+    "components": [Sched("rc", 3000, 200000, exhaustive_limit=3000, conformance="tr-rc", pb1=((40, 1500), (400, 40000)))],
     "rule": "rc: 2-4 threads each running one or two of Inc/RollingSumAt/GetBuckets/Reset on one RollingCounter, timestamps in the same bucket / adjacent buckets (racing roll-over) / a window apart; every atomic step is a scheduling point; random schedules plus DFS over all schedules of 2 threads x 1 op; distinct by (configuration, schedule)",
     "trusted_base": TB_COMMON + TB_SCHED,
     "assumptions": [],
 }
 
 PROPS["C11"] = {
-    "components": [Sched("cfg", 4000, 150000, only="C11:"), Sched("diag", 1500, 60000), Seq("consumers", 400, 20000, label="diag", crash_is_violation=True), RaceRun(),
+    "components": [Sched("cfg", 4000, 150000, only="C11:", pb1=((40, 1500), (400, 40000))), Sched("diag", 1500, 60000), Seq("consumers", 400, 20000, label="diag", crash_is_violation=True), RaceRun(),
                    CircuitSeq("C11", ["res:libpanic"], 1500, 60000)],
     "generated": ["lockfacts"],
     "rule": "cfg: one Execute (success / failure / context-error outcome, live or cancelled caller context, closed or open circuit) races one SetConfigThreadSafe changing exactly one setting (run limit, timeout, fallback limit, ForceOpen, ForcedClosed, Disabled, Fallback.Disabled, IgnoreInterrupts; 23 old->new pairs); the observed outcome must equal the outcome under the old or under the new configuration; distinct by (configuration, schedule). diag (schedules): calls of every outcome kind on a circuit whose collectors and interrupt classifier use Config/IsOpen/Name/gauges from inside their callbacks, racing SetConfigThreadSafe / Var / OpenCircuit+CloseCircuit; monitored: no deadlock. diag (consumers suite): diagnostics after partial SetConfigThreadSafe. circuit suite (sequential histories with partial live reconfigurations and every outcome kind): no call may end in a panic that the run function / fallback did not raise. racerun: control plane + diagnostics vs traffic under the Go race detector.",
@@ -220,7 +220,7 @@ PROPS["C11"] = {
     "assumptions": ["partial by nature: the Go memory model, fairness and network-facing diagnostics are outside the model"],
 }
 
-PROPS["C09"]["components"].append(Sched("trans", 3000, 150000, exhaustive_limit=3000, conformance="tr-trans"))
+PROPS["C09"]["components"].append(Sched("trans", 3000, 150000, exhaustive_limit=3000, conformance="tr-trans", pb1=((40, 1500), (400, 40000))))
 PROPS["C09"]["rule"] += " trans: 2-4 threads among OpenCircuit / CloseCircuit / failing call (opener says open) / succeeding probe (closer admits and says close) race from a closed or open circuit under the cooperative scheduler; quiescent monitor: alternation and IsOpen = last notification."
 PROPS["C09"]["trusted_base"] = TB_CIRCUIT + TB_SCHED
 
@@ -232,18 +232,18 @@ PROPS["C17"] = {
     "assumptions": ["sequential histories; concurrent creates are covered by the schedule harness where built"],
 }
 
-PROPS["C16"]["components"].append(Sched("tc", 3000, 150000, exhaustive_limit=3000, conformance="tr-tc"))
+PROPS["C16"]["components"].append(Sched("tc", 3000, 150000, exhaustive_limit=3000, conformance="tr-tc", pb1=((40, 1500), (400, 40000))))
 PROPS["C16"]["rule"] += " tc (schedules): 2-4 concurrent Check callers with timestamps inside one sleep period (bound: at most max(1,budget) successes) or all before nextOpen (bound: none), a timer thread firing armed callbacks at arbitrary moments, optionally a racing SleepStart; every atomic and lock operation is a scheduling point."
 PROPS["C16"]["trusted_base"] = PROPS["C16"]["trusted_base"] + TB_SCHED
-PROPS["C03"]["components"].append(Sched("tc", 1500, 60000, label="sched-tc-gate"))
+PROPS["C03"]["components"].append(Sched("tc", 1500, 60000, label="sched-tc-gate", pb1=((40, 1500), (400, 40000))))
 PROPS["C03"]["trusted_base"] = PROPS["C03"]["trusted_base"] + TB_SCHED
 
-PROPS["C07"]["components"].append(Sched("cfg", 3000, 100000, label="sched-cfg-deadline", only="C07:"))
-PROPS["C05"]["components"].append(Sched("cfg", 3000, 100000, label="sched-cfg-kind", only="C05:"))
+PROPS["C07"]["components"].append(Sched("cfg", 3000, 100000, label="sched-cfg-deadline", only="C07:", pb1=((40, 1500), (400, 40000))))
+PROPS["C05"]["components"].append(Sched("cfg", 3000, 100000, label="sched-cfg-kind", only="C05:", pb1=((40, 1500), (400, 40000))))
 PROPS["C05"]["rule"] += " cfg (schedules): one call racing one live reconfiguration (limits, timeout, flags, IgnoreInterrupts, the interrupt classifier) must be reported as the kind the old or the new configuration yields."
 PROPS["C07"]["rule"] += " cfg (schedules): one call racing one Timeout change: the deadline its run function sees is start+old or start+new (or none), never anything else."
 for _pid in ("C04", "C07", "C08", "C11"):
-    PROPS[_pid]["components"].append(Sched("cfg2", 1500, 60000, only=_pid + ":"))
+    PROPS[_pid]["components"].append(Sched("cfg2", 1500, 60000, only=_pid + ":", pb1=((40, 1500), (400, 40000))))
     PROPS[_pid]["rule"] += " cfg2 (schedules): two overlapping SetConfigThreadSafe calls with different settings (+ optionally a reader); once both returned, what Config() reports must be what is enforced (override flags, timeout, both limits), observed through IsOpen and a lone probe call."
     if TB_SCHED[0] not in PROPS[_pid]["trusted_base"]:
         PROPS[_pid]["trusted_base"] = PROPS[_pid]["trusted_base"] + TB_SCHED
@@ -256,15 +256,15 @@ PROPS["C08"]["components"].append(CircuitSeq("C08", ["started"], 150, 4000, suit
 PROPS["C08"]["rule"] += " gowrap: Go on nil / zero-value / Disabled circuits (also with an already cancelled context) must still run the function."
 PROPS["C08"]["components"].append(OverrideMeta(1500, 40000))
 PROPS["C08"]["rule"] += " override-meta (metamorphic, real code only): histories with an episode setcfg fo=1|dis=1, calls, setcfg fo=0|dis=0 (often over an open circuit whose sleep window has elapsed) are re-run with the episode replaced by the passage of its clock readings; every later op must answer identically ('clearing an override resumes the underlying state')."
-PROPS["C10"]["components"].append(Sched("gauge", 2000, 100000, label="sched-gauge-panic", only="C10:"))
+PROPS["C10"]["components"].append(Sched("gauge", 2000, 100000, label="sched-gauge-panic", only="C10:", pb1=((40, 1500), (400, 40000))))
 PROPS["C10"]["rule"] += " gauge (schedules): 2-5 concurrent callers among succeeding / failing / panicking run functions and fallbacks under every limit: a panic reaches its own caller with its value, nobody else sees one, and both gauges read zero once all returned."
 PROPS["C10"]["trusted_base"] = PROPS["C10"]["trusted_base"] + TB_SCHED
-PROPS["C01"]["components"].append(Sched("shed", 3000, 150000, exhaustive_limit=3000, conformance="tr-call", only="C01:"))
+PROPS["C01"]["components"].append(Sched("shed", 3000, 150000, exhaustive_limit=3000, conformance="tr-call", only="C01:", pb1=((40, 1500), (400, 40000))))
 PROPS["C01"]["rule"] += " shed (schedules): 2-4 threads among OpenCircuit / failing call (the opener says open) / succeeding call race on a circuit with the real hystrix closer whose sleep window never elapses and which cannot close; monitors: a call that starts after an opening completed is never run and gets the circuit-open error; one short-circuit event per shed call; every atomic step conforms to the Lean small-step model Conc/Call (K2)."
 PROPS["C01"]["trusted_base"] = TB_CIRCUIT + TB_SCHED
-PROPS["C03"]["components"].append(Sched("shed", 3000, 150000, label="sched-shed-window", only="C03:"))
+PROPS["C03"]["components"].append(Sched("shed", 3000, 150000, label="sched-shed-window", only="C03:", pb1=((40, 1500), (400, 40000))))
 PROPS["C03"]["rule"] += " shed (schedules): callers racing the opening transition with the real hystrix closer: a call whose own reading of the circuit said open never runs inside the sleep window."
-PROPS["C17"]["components"].append(Sched("mgr", 2000, 100000, exhaustive_limit=3000, conformance="tr-mgr"))
+PROPS["C17"]["components"].append(Sched("mgr", 2000, 100000, exhaustive_limit=3000, conformance="tr-mgr", pb1=((40, 1500), (400, 40000))))
 PROPS["C17"]["rule"] += " mgr (schedules): 2-4 threads among CreateCircuit(same name) / CreateCircuit(other) / GetCircuit / AllCircuits / Var on one Manager, with and without a StatFactory, under the cooperative scheduler; quiescent monitor: exactly one winner, stable handle, AllCircuits = successful creations, stats binding."
 PROPS["C17"]["trusted_base"] = PROPS["C17"]["trusted_base"] + TB_SCHED
 
@@ -293,7 +293,7 @@ PROPS["C10"]["components"].append(PanicMeta(1500, 40000))
 PROPS["C10"]["rule"] += " panic-meta: every generated history in which a run function panicked is re-run on the real code with that call replaced by the passage of the same time; all later answers must be identical (metamorphic form of 'as if the panicking call had not happened')."
 
 for _pid in ("C02", "C03", "C11", "C16", "C20"):
-    PROPS[_pid]["components"].append(Sched("lcfg2", 1200, 50000, only=_pid + ":"))
+    PROPS[_pid]["components"].append(Sched("lcfg2", 1200, 50000, only=_pid + ":", pb1=((40, 1500), (400, 40000))))
     PROPS[_pid]["rule"] += " lcfg2 (schedules): two overlapping SetConfigThreadSafe calls on one built-in closer / opener / SLO tracker; once both returned, what Config() reports must be what the object enforces (sleep window, probe budget, required successes, volume threshold, healthy time)."
     if TB_SCHED[0] not in PROPS[_pid]["trusted_base"]:
         PROPS[_pid]["trusted_base"] = PROPS[_pid]["trusted_base"] + TB_SCHED
